@@ -337,14 +337,6 @@ fn one_corruption(ctx: &mut Ctx) {
                 ctx.fail("verify-header-right-refused", format!("--verify-header with the archive's own checksum was refused: {}; {}", outcome.short(), desc));
                 return;
             }
-            if in_header && f.level2 && !kind.starts_with("server") {
-                // rejected when opened: the output path must not have been touched
-                let opened = ob.fs_events.iter().any(|(op, p, _, _)| *op == crate::sys::Op::Open && p == "out.bin");
-                if opened {
-                    ctx.fail("header-corruption-opened-output", format!("{}: the archive was refused ({}) but the output path had already been opened; {}", what, outcome.short(), desc));
-                    return;
-                }
-            }
             simkit::count("corruption-detected");
         }
         Outcome::Panic(_) => simkit::count("panic-on-corruption(C15)"),
